@@ -377,8 +377,7 @@ func isCLIAction(p *an.Prog, fn *ssa.Function) bool {
 
 func sequentialTargets(c *an.Ctx, r *runnerRoles, rule string) {
 	p := c.P
-	runTask := p.Func("cmd/taskctl", "", "runTask")
-	runTarget := p.Func("cmd/taskctl", "", "runTarget")
+	disp := dispatchers(p)
 	n := 0
 	for _, fn := range p.Funcs {
 		if !inPkgs("cmd/taskctl")(fn) {
@@ -393,7 +392,7 @@ func sequentialTargets(c *an.Ctx, r *runnerRoles, rule string) {
 					}
 					runs := false
 					for _, callee := range p.Callees(ci.Common()) {
-						if callee == runTask || callee == runTarget {
+						if disp[callee] {
 							runs = true
 						}
 					}
@@ -428,6 +427,33 @@ func argLoops(fn *ssa.Function) []*an.Loop {
 			if call, ok := src.(*ssa.Call); ok {
 				if strings.HasSuffix(an.ShortCallee(&call.Call), "cli/v2.Args).Slice") {
 					out = append(out, l)
+				}
+			}
+		}
+	}
+	return out
+}
+
+// dispatchers are the functions that run a target: TaskRunner.Run,
+// Scheduler.Schedule and every function of cmd/taskctl that reaches one of
+// them by synchronous calls (runTask, runTarget, runPipeline, …).
+func dispatchers(p *an.Prog) map[*ssa.Function]bool {
+	out := map[*ssa.Function]bool{}
+	for _, f := range []*ssa.Function{p.Func("pkg/runner", "TaskRunner", "Run"), p.Func("pkg/scheduler", "Scheduler", "Schedule")} {
+		if f != nil {
+			out[f] = true
+		}
+	}
+	for changed := true; changed; {
+		changed = false
+		for _, fn := range p.Funcs {
+			if out[fn] || !inPkgs("cmd/taskctl")(fn) || fn.Parent() != nil {
+				continue
+			}
+			for _, e := range p.OutEdges(fn) {
+				if e.Kind == an.EdgeCall && e.Site.Parent() == fn && out[e.Callee] {
+					out[fn] = true
+					changed = true
 				}
 			}
 		}
